@@ -2577,7 +2577,14 @@ func (c *Conn) negotiateVersionClient(ctx context.Context) ([]*dtlsflight.Packet
 		timedOut := readCtx.Err() != nil && ctx.Err() == nil
 		cancelRead()
 		if err != nil && timedOut {
-			if err = c.writePackets(ctx, pkts); err != nil {
+			// The write gets one interval: on a transport whose write waits
+			// for the peer to read, the peer may itself be writing its
+			// answer, which nobody reads while this goroutine is stuck here.
+			writeCtx, cancelWrite := context.WithTimeout(ctx, interval)
+			err = c.writePackets(writeCtx, pkts)
+			writeTimedOut := writeCtx.Err() != nil && ctx.Err() == nil
+			cancelWrite()
+			if err != nil && !writeTimedOut {
 				return nil, err
 			}
 			if !c.handshakeConfig.DisableRetransmitBackoff && interval < 60*time.Second {
